@@ -12,7 +12,7 @@ class Undecided(Exception):
 class Session:
     def __init__(self, tier='quick', seed=0):
         self.tier, self.seed = tier, seed
-        self.timeout = 60.0 if tier == 'quick' else 600.0
+        self.timeout = 120.0 if tier == 'quick' else 600.0      # clean-tree queries take at most a few seconds; the margin is for slower or loaded machines
         self.confirm = tier != 'quick'
         self.queries = []          # dicts: name, verdict, expected, solver, time
         self.violations = []       # dicts: what, detail, replay (recipe)
